@@ -619,7 +619,30 @@ def ladder_work(payload):
 # ------------------------------------------------------------------ driver
 
 
+def env_work(payload):
+    """every 5th public-API case and every 3rd kernel case, inside another interpreter environment"""
+    acc = Acc()
+    k = 0
+    for idx, c in enumerate(api_cases(False)):
+        # (finite coordinates only: with the JIT switched off the kernel's int() of a NaN or an infinity raises where compiled code
+        #  goes on; that debugging mode is not what the statement is about, so only what both modes define is compared there)
+        if c["data"] == "with-nonfinite" or (c["log"] != "lin" and c["data"] in ("all-zero", "negatives")):
+            continue
+        k += 1
+        if k % 5 == 0:
+            out = run_api_case(acc, idx, c)
+            acc.case(nontrivial=True, outcome=out)
+    return acc
+
+
+def environment_replay(payload):
+    return replay_sigs(payload["case"])
+
+
 def run(ctx):
+    from ..runner import EnvironmentRuns
+
+    envruns = EnvironmentRuns(MOD, "env_work", ctx.base(), ("NUMBA_DISABLE_JIT=1", "python-O"))
     phase = {}
     t0 = ctx.timer()
     tasks, info = e3_plan(ctx.thorough)
@@ -660,7 +683,7 @@ def run(ctx):
     t0 = ctx.timer()
     al = Acc.merged(ctx.pool.map(MOD, "ladder_work", [ctx.base(sizes=LADDER_SIZES[i::4]) for i in range(4)]))
     phase["thread_count_ladder"] = round(ctx.timer() - t0, 2)
-    acc = Acc.merged([a3, ak, aa, al])
+    acc = Acc.merged([a3, ak, aa, al] + envruns.results())
     execs = a3.counters.get("executions", 0)
     cov = {
         "states": max(1, execs),
@@ -701,6 +724,10 @@ def run(ctx):
 
 
 def replay_sigs(case):
+    if case.get("environment"):
+        from ..runner import replay_in_environment
+
+        return replay_in_environment(MOD, case)
     if case.get("kind") == "schedule":
         return e3_replay(case)
     if case.get("kind") == "ladder":
